@@ -98,7 +98,7 @@ def playback(harness):
     cmd = ["cargo", "kani", "-Z", "function-contracts", "-Z", "stubbing", "-Z", "concrete-playback", "--concrete-playback=print", "--exact", "--harness", kunit.full_name(harness)]
     cmd += kunit.GROUP_FLAGS.get(harness.group, [])
     try:
-        r = subprocess.run(cmd, cwd=dst, env=env_offline(), stdout=subprocess.PIPE, stderr=subprocess.STDOUT, text=True, timeout=900)
+        r = subprocess.run(cmd, cwd=dst, env=env_offline(), stdout=subprocess.PIPE, stderr=subprocess.STDOUT, text=True, timeout=300)
     except subprocess.TimeoutExpired:
         return []
     res = []
